@@ -136,3 +136,8 @@ def make_spec(profile_name, seed, tier):
     spec = gen.gen_spec(seed, prof)
     spec['profile'] = profile_name
     return spec
+
+
+# properties whose oracles do not depend on where a stateful sampler / Cycle router starts (open finding K9): a share of their runs
+# is made on a Network object that has already served another Simulation
+REUSE_OK = {'C01', 'C02', 'C04', 'C05', 'C06', 'C07', 'C08'}
